@@ -1,8 +1,10 @@
 pub mod common;
 pub mod c01;
+pub mod c02;
+pub mod c03;
 
 use crate::framework::Prop;
 
 pub fn all() -> Vec<&'static dyn Prop> {
-    vec![&c01::C01]
+    vec![&c01::C01, &c02::C02, &c03::C03]
 }
